@@ -43,7 +43,15 @@ Definition m_attach (w : wnode) (r : vref) (k : core) : core :=
                {| k_cache := k_cache k; k_table := t; k_roots := rs; k_log := k_log k |}
   end.
 Definition m_child_nodes (r : vref) (n : node) (d : nat) : list wnode := map WNode (children_of c h (n_oid n) d (r_vid r)).
-Definition m_add_children (ch : list wnode) (_ : nat) (new : list wnode) : list wnode := ch ++ new.
+(* Node.add_children as translated: a new child is put one level below its parent (the model's child nodes carry that depth
+   already: CollectorProofs.children_parent) *)
+Definition w_set_depth (w : wnode) (z : Z) : wnode :=
+  match w with
+  | WNode n => WNode {| n_name := n_name n; n_orig := n_orig n; n_oid := n_oid n; n_par := n_par n; n_depth := Z.to_nat z |}
+  | WWrap i => WWrap i
+  end.
+Definition m_add_children (ch : list wnode) (d : nat) (new : list wnode) : list wnode :=
+  gen_add_children w_set_depth (Z.of_nat d) ch new.
 
 (* process_variable as translated, on the model's cache (object ids in recording order: the id of the i-th is i+1), table
    and heap; the ghost log records (id, depth) of every NEW variable *)
@@ -87,6 +95,21 @@ Definition code_iter : list wnode -> core -> wl_result wnode core := gen_bfs_ite
 Definition code_traverse (fuel : nat) (root : node) (k : core) : core * bool :=
   wl_run code_iter fuel (gen_bfs_iter_start (WWrap root)) k.
 
+Lemma tie_add_children {N} (set_depth : N -> Z -> N) d new : forall ex,
+  gen_add_children set_depth d ex new = ex ++ map (fun ch => set_depth ch (d + 1)%Z) new.
+Proof.
+  unfold gen_add_children. induction new as [|x r IH]; intros ex; cbn [fold_left map]; [rewrite app_nil_r; reflexivity|].
+  rewrite IH, <- app_assoc. reflexivity.
+Qed.
+
+Lemma add_model_children ch o d v :
+  m_add_children ch d (map WNode (children_of c h o d v)) = ch ++ map WNode (children_of c h o d v).
+Proof.
+  unfold m_add_children. rewrite tie_add_children. f_equal. rewrite map_map. apply map_ext_in. intros n I.
+  destruct (children_parent c h o d v n I) as (_ & D & _). unfold w_set_depth.
+  replace (Z.to_nat (Z.of_nat d + 1)) with (S d) by lia. rewrite <- D. destruct n; reflexivity.
+Qed.
+
 Lemma unwrap_map q : unwrap (map WNode q) = q.
 Proof. unfold unwrap. induction q as [|x r IH]; cbn [map flat_map app]; [reflexivity|]. rewrite IH. reflexivity. Qed.
 
@@ -111,7 +134,7 @@ Proof.
       * unfold m_attach. fold (m_ref n v).
         destruct (attach (k_table k) (k_roots k) (n_par n) (m_ref n v)) as [t rs] eqn:A.
         exists r. rewrite app_nil_r. split; reflexivity.
-      * unfold m_attach, m_add_children, m_child_nodes. cbn [k_table k_roots k_cache k_log r_vid m_ref app].
+      * unfold m_child_nodes. cbn [r_vid m_ref]. rewrite add_model_children. unfold m_attach. cbn [k_table k_roots k_cache k_log r_vid m_ref app].
         fold (m_ref n (S (length (k_cache k)))).
         destruct (attach (k_table k ++ [(S (length (k_cache k)), record_var c h (n_oid n))]) (k_roots k) (n_par n)
                          (m_ref n (S (length (k_cache k))))) as [t rs] eqn:A.
